@@ -236,7 +236,7 @@ def run(ctx):
             ceb = ExprBuilder(cb)
             r = ceb.local(0)
             s = show(r)
-            if "repeat(" in s and "num_states" in s:
+            if ("repeat(" in s or "from_elem(" in s) and "num_states" in s:
                 # the repeated element is !gv_off_context.test(label)
                 if "Not(model::voice::question::Question::test(" in s and "gv_off_context" in s:
                     okk = True
